@@ -295,6 +295,8 @@ def check(case):
             interesting.append("dry-run+undefined")
     for lab in interesting:
         res.label(lab)
+    if ref.skipped_by_hook:
+        res.label("skipped-by-hook:" + sorted(ref.skipped_by_hook)[0][0])
     for n in names:
         res.label("fmt:" + n)
     res.nontrivial = len(names) >= 2 and bool(set(interesting) - {"dry-run"})
@@ -554,6 +556,9 @@ def case_st(draw):
                     s["text"] = draw(st.sampled_from([u"one line", u"two\nlines", u"ünï\n  indented", u""]))
                 elif v == 1:
                     s["table"] = draw(st.sampled_from([[[u"h"]], [[u"a", u"b"], [u"1", u"ü"]], [[u"x|y"], [u""]]]))
+    # run-time exclusion: a before_feature / before_rule / before_scenario hook skips its element
+    if not prog.get("hook_faults") and not prog.get("cleanups") and draw(st.integers(0, 3)) == 0:
+        prog["hook_faults"] = [[draw(st.integers(0, 10000)), "skip"]]
     names = draw(st.lists(st.sampled_from(FORMATTERS), min_size=1, max_size=5))
     if draw(st.integers(0, 2)) == 0 and "json" not in names:
         names.insert(draw(st.integers(0, len(names))), "json")
@@ -570,7 +575,8 @@ def explore(rec):
 
 def required_labels(tier):
     return ["fmt:" + f for f in FORMATTERS] + ["rule-background", "outline", "failure", "deselection", "dry-run",
-                                               "dry-run+undefined", "readback:file"]
+                                               "dry-run+undefined", "readback:file", "skipped-by-hook:feature", "skipped-by-hook:scenario",
+                                               "skipped-by-hook:rule"]
 
 
 KNOWN_PREDICATES = {}
